@@ -262,6 +262,8 @@ class SRAMMon(Mon):
             chunks = [bus.dat_w] + list(reversed(stage))
             full = Cat(*chunks)
             stmts.append(If(sel & bus.we & (sub == per - 1) & (wordadr == self.W), sh.eq(full[:memw])))
+        if read_only:
+            stmts.append(sh.eq(sh))      # the shadow must stay a register (free start value tied to the memory word at frame 0)
         self.sync += stmts
         # read: one cycle later, sub-word 0 = most significant chunk
         p_chk = self.reg(1, "p_chk"); p_exp = self.reg(busword, "p_exp"); p_unsel = self.reg(1, "p_unsel")
